@@ -99,8 +99,28 @@ fn in_any(ranges: &[(usize, usize)], a: usize, b: usize) -> bool {
     ranges.iter().any(|(s, e)| *s <= a && b <= *e)
 }
 
+/// the last top-level box of a JPEG XL container rewritten with the legal 64-bit size form (size field 1 + u64), which the
+/// SDK never writes itself
+fn jxl_largesize(src: &[u8]) -> Option<Vec<u8>> {
+    if src.len() < 12 || &src[4..8] != b"JXL " { return None; }
+    let mut boxes: Vec<(usize, usize)> = vec![];
+    let mut p = 0usize;
+    while p + 8 <= src.len() {
+        let s = u32::from_be_bytes([src[p], src[p + 1], src[p + 2], src[p + 3]]) as usize;
+        let s = if s == 0 { src.len() - p } else { s };
+        if s < 8 || s == 1 || p + s > src.len() { break; }
+        boxes.push((p, s)); p += s;
+    }
+    let &(bp, bs) = boxes.last()?;
+    let mut o = src[..bp].to_vec();
+    o.extend_from_slice(&1u32.to_be_bytes()); o.extend_from_slice(&src[bp + 4..bp + 8]); o.extend_from_slice(&((bs + 8) as u64).to_be_bytes());
+    o.extend_from_slice(&src[bp + 8..bp + bs]); o.extend_from_slice(&src[bp + bs..]);
+    Some(o)
+}
+
 struct Case { fmt: &'static str, name: &'static str, fixture: &'static str }
-const CASES: [Case; 15] = [
+const CASES: [Case; 16] = [
+    Case { fmt: "image/jxl", name: "jxl_large", fixture: "sample1.jxl" }, // the codestream box rewritten with a 64-bit (largesize) header
     Case { fmt: "image/jpeg", name: "jpeg_rst2", fixture: "IMG_0003.jpg" }, // restart markers, different encoder
     Case { fmt: "image/jpeg", name: "jpeg_rst", fixture: "earth_apollo17.jpg" }, // restart intervals (DRI / RSTn markers)
     Case { fmt: "image/jpeg", name: "jpeg", fixture: "no_manifest.jpg" }, Case { fmt: "image/png", name: "png", fixture: "libpng-test.png" },
@@ -122,8 +142,9 @@ pub fn record(args: &[String]) {
     let mut out = Out::new();
     for case in CASES.iter() {
         if let Some(o) = &only { if !o.iter().any(|x| x == case.name) { continue; } }
-        let src = fixture(case.fixture);
+        let mut src = fixture(case.fixture);
         if src.is_empty() { continue; }
+        if case.name == "jxl_large" { src = match jxl_largesize(&src) { Some(s) => s, None => continue }; }
         for kind in ["default", "box", "update"] {
             let overlay = if kind == "box" { json!({"core": {"prefer_compress_manifests": true}}) } else { Value::Null };
             let signed = if kind == "update" {
